@@ -174,6 +174,7 @@ def eliminate_distinct_on(expression: exp.Expr) -> exp.Expr:
         # We add aliases to the projections so that we can safely reference them in the outer query
         new_selects: list[exp.Expr] = []
         taken_names = {row_number_window_alias}
+        taken_names.update(s.alias for s in expression.selects[:-1] if isinstance(s, exp.Alias))
         for select in expression.selects[:-1]:
             if select.is_star:
                 new_selects = [exp.Star()]
